@@ -269,6 +269,15 @@ def search(ctx):
                             np.random.random(5)
                             rb = hp.fit(data, model2, strategy=S(npixels=40, seed=sd_, maxiter=3))
                             pa_, pb_ = [ra.parameters[nm] for nm in names], [rb.parameters[nm] for nm in names]
+                            # the same strategy described by assigning its options after construction (the documented way to adjust a
+                            # strategy in a session): equal strategies give equal fits
+                            sc_ = S()
+                            sc_.npixels, sc_.seed, sc_.maxiter = 40, sd_, 3
+                            rc = hp.fit(data, model2, strategy=sc_)
+                            pc_ = [rc.parameters[nm] for nm in names]
+                            if sc_ == S(npixels=40, seed=sd_, maxiter=3) and pc_ != pa_:
+                                ctx.violation("C13:repeat:options-assigned", "a strategy whose options were assigned after construction (npixels=40, seed=%d, maxiter=3) compares equal to the one built with them and fits differently: %r vs %r" % (sd_, pc_, pa_),
+                                              dict(info2, seed=sd_))
                             if pa_ != pb_:
                                 ctx.violation("C13:repeat:subset-seed", "two fits on a 40-pixel subset with seed=%d (3 iterations) return different parameters: %r vs %r" % (sd_, pa_, pb_),
                                               dict(info2, seed=sd_))
